@@ -273,7 +273,8 @@ func checkC07(c *Ctx, r *Report) {
 				}
 				a := sliceOf(cnd)
 				emptyTest := (bo.Op == token.EQL && pol || bo.Op == token.NEQ && !pol) && (hasConst(a, `""`) || (a.Calls["builtin.len"] && hasConst(a, "0")))
-				if emptyTest && a.Calls["strings.Split"] {
+				// the name part: what precedes the first comma, however it is cut off
+				if emptyTest && (a.Calls["strings.Split"] || a.Calls["strings.SplitN"] || a.Calls["strings.Cut"] || a.Calls["strings.Index"] || a.Calls["strings.IndexByte"]) && hasConst(a, `","`) {
 					viol = ""
 					sites = append(sites, w.pos(retPos(ex)))
 				}
